@@ -4,6 +4,7 @@ import (
 	"bytes"
 	"encoding/binary"
 	"errors"
+	"fmt"
 	"os"
 	"strings"
 	"time"
@@ -72,7 +73,17 @@ func LoadCCache(cpath string) (*CCache, error) {
 }
 
 // Unmarshal a byte slice of credential cache data into CCache type.
-func (c *CCache) Unmarshal(b []byte) error {
+func (c *CCache) Unmarshal(b []byte) (err error) {
+	// The readers below index the data by lengths and counts taken from the data itself:
+	// a truncated or corrupt file must come back as an error, not as a panic.
+	defer func() {
+		if r := recover(); r != nil {
+			err = fmt.Errorf("invalid credential cache data: %v", r)
+		}
+	}()
+	if len(b) < 2 {
+		return errors.New("Invalid credential cache data. Less than 2 bytes")
+	}
 	p := 0
 	//The first byte of the file always has the value 5
 	if int8(b[p]) != 5 {
@@ -174,11 +185,17 @@ func parseCredential(b []byte, p *int, c *CCache, e *binary.ByteOrder) (cred *Cr
 	cred.TicketFlags = types.NewKrbFlags()
 	cred.TicketFlags.Bytes = readBytes(b, p, 4, e)
 	l := int(readInt32(b, p, e))
+	if l < 0 || l > len(b)-*p {
+		return nil, fmt.Errorf("invalid credential cache data: %d addresses in %d remaining bytes", l, len(b)-*p)
+	}
 	cred.Addresses = make([]types.HostAddress, l, l)
 	for i := range cred.Addresses {
 		cred.Addresses[i] = readAddress(b, p, e)
 	}
 	l = int(readInt32(b, p, e))
+	if l < 0 || l > len(b)-*p {
+		return nil, fmt.Errorf("invalid credential cache data: %d authorization data entries in %d remaining bytes", l, len(b)-*p)
+	}
 	cred.AuthData = make([]types.AuthorizationDataEntry, l, l)
 	for i := range cred.AuthData {
 		cred.AuthData[i] = readAuthDataEntry(b, p, e)
